@@ -60,6 +60,7 @@ type Contract struct {
 	Preserves []*Clause
 	LoopInv   []*Clause
 	LoopDec   []*Clause
+	FuncParams map[string]FuncParam // function-typed parameters with a behavioural contract
 	LoopCand  []*Clause // candidate invariants: kept per loop only if inductive (Houdini)
 	Inline    bool
 	Trusted   bool   // contract assumed, body not verified
@@ -70,6 +71,12 @@ type Contract struct {
 	ArithWrap bool
 	File      string
 	Line      int
+}
+
+// FuncParam: calls through the parameter behave like method Like applied to receiver parameter Recv.
+type FuncParam struct {
+	Like string
+	Recv string
 }
 
 type Pred struct {
@@ -95,7 +102,7 @@ func NewSpecs() *Specs {
 
 var clauseKeywords = map[string]bool{
 	"pred": true, "func": true, "requires": true, "ensures": true, "preserves": true, "loop": true,
-	"inline": true, "trusted": true, "opaque": true, "noverify": true, "modifies": true, "pure": true, "arith": true, "axiom": true,
+	"funcparam": true, "inline": true, "trusted": true, "opaque": true, "noverify": true, "modifies": true, "pure": true, "arith": true, "axiom": true,
 }
 
 // LoadSpecs reads every contracts_verif.go under repo (falling back to mirror for packages lacking one).
@@ -248,6 +255,16 @@ func (S *Specs) parseFile(path string) error {
 				return fail(fmt.Errorf("clause outside func"))
 			}
 			switch kw {
+			case "funcparam":
+				// funcparam f like Lexer.consumeDigit on l
+				f := strings.Fields(rest)
+				if len(f) != 5 || f[1] != "like" || f[3] != "on" {
+					return fail(fmt.Errorf("funcparam NAME like METHOD on RECV"))
+				}
+				if cur.FuncParams == nil {
+					cur.FuncParams = map[string]FuncParam{}
+				}
+				cur.FuncParams[f[0]] = FuncParam{Like: short + "." + f[2], Recv: f[4]}
 			case "inline":
 				cur.Inline = true
 			case "trusted":
